@@ -129,4 +129,9 @@ def applyMut (m : Mut) (p : Packet) : Packet :=
   | .setExt id pl => { p with header := (setExtension p.header id pl).2 }
   | .delExt id => { p with header := (delExtension p.header id).2 }
 
+/-- clone, then mutate one side: (original afterwards, clone afterwards) -/
+def scenario (p : Packet) (m : Mut) (onClone : Bool) : Packet × Packet :=
+  let c := pktClone p
+  if onClone then (p, applyMut m c) else (applyMut m p, c)
+
 end Rtp.Pred.C20
